@@ -95,25 +95,27 @@ def run_case(c):
     bct = import_bct()
     r = c['routine']; F = []
     res = {'fails': F, 'draws': []}
-    if r in ('maketoeplitzCIJ', 'makefractalCIJ'):
+    if not c.get('replay', True):
+        seed = c['seed']                   # large case judged by the predicates only: nothing recorded
+    elif r in ('maketoeplitzCIJ', 'makefractalCIJ'):
         del _SEEN[:]
         seed = SpyRecorder(c['seed'])
     else:
         seed = Recorder(c['seed'])
     if r in ('makerandCIJ_dir', 'makerandCIJ_und', 'makeringlatticeCIJ'):
-        st, out = call(getattr(bct, r), c['n'], c['k'], seed=seed, t=5, retry=10)
+        st, out = call(getattr(bct, r), c['n'], c['k'], seed=seed, t=c.get('t', 5), retry=10)
     elif r == 'makeevenCIJ':
-        st, out = call(bct.makeevenCIJ, c['n'], c['k'], c['sz_cl'], seed=seed, t=5, retry=10)
+        st, out = call(bct.makeevenCIJ, c['n'], c['k'], c['sz_cl'], seed=seed, t=c.get('t', 5), retry=10)
     elif r == 'maketoeplitzCIJ':
-        st, out = call(bct.maketoeplitzCIJ, c['n'], c['k'], c['s'], seed=seed, t=5, retry=10)
+        st, out = call(bct.maketoeplitzCIJ, c['n'], c['k'], c['s'], seed=seed, t=c.get('t', 5), retry=10)
     elif r == 'makefractalCIJ':
-        st, out = call(bct.makefractalCIJ, c['mx_lvl'], c['E'], c['sz_cl'], seed=seed, t=5, retry=10)
+        st, out = call(bct.makefractalCIJ, c['mx_lvl'], c['E'], c['sz_cl'], seed=seed, t=c.get('t', 5), retry=10)
     elif r == 'makerandCIJdegreesfixed':
-        st, out = call(bct.makerandCIJdegreesfixed, represent_vec(c['inv'], c.get('rep')), represent_vec(c['outv'], c.get('rep')), seed=seed, t=5, retry=10)
+        st, out = call(bct.makerandCIJdegreesfixed, represent_vec(c['inv'], c.get('rep')), represent_vec(c['outv'], c.get('rep')), seed=seed, t=c.get('t', 5), retry=10)
     res['status'] = st
     if isinstance(seed, Recorder):
         res['draws'] = seed.flat()
-    if r in ('maketoeplitzCIJ', 'makefractalCIJ'):
+    if r in ('maketoeplitzCIJ', 'makefractalCIJ') and c.get('replay', True):
         res['thr'] = _SEEN[0].tolist() if _SEEN else None
         res['thr_stable'] = all(np.array_equal(t, _SEEN[0]) for t in _SEEN)
         del _SEEN[:]
@@ -287,6 +289,56 @@ def gen_cases(rs, tier):
     return cases
 
 
+SIZES = (12, 16, 17, 32, 33, 48, 64, 65, 100, 128, 129, 216, 220, 256, 257)
+
+
+def size_cases(rs, tier):
+    """size axis for every generator: N around 12, 16/17, 32/33, 48, 64/65, 100, 128/129, 216-220, 256/257, K near its extremes and
+    in the middle, 4-8 hierarchical levels, degree sequences with > 64 / 500 / 1000 edges; the predicates judge every case, the
+    Lean model replays the ones it can do quickly (`replay`)"""
+    big = tier == 'thorough'
+    cases = []
+
+    def S():
+        return int(rs.randint(2 ** 31))
+
+    def pick(xs, m):
+        xs = sorted(set(int(x) for x in xs))
+        return xs if (big or len(xs) <= m) else sorted(int(x) for x in rs.choice(xs, m, replace=False))
+    sizes = SIZES if big else tuple(sorted(set(int(x) for x in rs.choice(SIZES[:11], 6, replace=False)) | {int(rs.choice(SIZES[11:]))}))
+    for n in sizes:
+        full = n * (n - 1)
+        for k in pick([0, 1, 2, full // 4 + int(rs.randint(7)), full // 2 - 1, full // 2, full // 2 + 1, full - 2, full - 1, full], 4):
+            cases.append({'routine': 'makerandCIJ_dir', 'n': n, 'k': k, 'seed': S(), 'size': True, 'replay': n <= 33, 't': 60})
+            cases.append({'routine': 'makeringlatticeCIJ', 'n': n, 'k': k, 'seed': S(), 'size': True, 'replay': n <= 65, 't': 60})
+        h = full // 2
+        for k in pick([0, 1, 2, h // 3 + int(rs.randint(5)), h // 2, h - 2, h - 1, h], 4):
+            cases.append({'routine': 'makerandCIJ_und', 'n': n, 'k': k, 'seed': S(), 'size': True, 'replay': n <= 33, 't': 60})
+    # several hierarchical levels
+    for mx in ((4, 5, 6, 7, 8) if big else (4, 5, 6, int(rs.choice([7, 8])))):
+        n = 2 ** mx
+        for s in pick(range(1, mx + 1), 2):
+            ncl = n * (2 ** s - 1); full = n * (n - 1)
+            for k in pick([x for x in (ncl, ncl + 1, (ncl + full) // 2, full - 1, full) if ncl <= x <= full], 3):
+                cases.append({'routine': 'makeevenCIJ', 'n': n, 'k': k, 'sz_cl': s, 'seed': S(), 'size': True, 'replay': n <= (64 if big else 32), 't': 60})
+            for E in pick([1, 2, 3, 4], 2):
+                cases.append({'routine': 'makefractalCIJ', 'mx_lvl': mx, 'E': E, 'sz_cl': s, 'seed': S(), 'size': True, 'replay': mx <= 5, 't': 60})
+    # toeplitz: K the clipped template can place (no give-up expected), growing N
+    for n in ((12, 16, 17, 32, 33, 48, 64, 100) if big else (12, 17, 33, 64)):
+        for sd in (1.0, 2.0, 4.0):
+            for k in (n, 2 * n, 3 * n):
+                if toeplitz_deficit(n, k, sd) < .5:
+                    cases.append({'routine': 'maketoeplitzCIJ', 'n': n, 'k': k, 's': sd, 'seed': S(), 'size': True, 'replay': n <= 17, 't': 60})
+    # degrees fixed: more than 64, 500, 1000 edges
+    for n in ((12, 16, 17, 32, 33, 48, 64, 65, 100) if big else (12, 17, 33, 48, int(rs.choice([64, 65, 100])))):
+        for dens in ((.15, .3, .5) if n <= 33 else (.1, .25)):
+            for _ in range(3 if big else 2):
+                A = rand_graph(rs, n, dens, True)
+                cases.append({'routine': 'makerandCIJdegreesfixed', 'inv': [int(x) for x in A.sum(0)], 'outv': [int(x) for x in A.sum(1)],
+                              'seed': S(), 'graphical': True, 'size': True, 'replay': n <= 33, 't': 60})
+    return cases
+
+
 def explicit_sequences(rs, tier):
     """sibling generators at equal n in one fresh process, dense requests after sparse ones, options away from the default first"""
     def S():
@@ -357,6 +409,8 @@ def main():
     ck.cov['rule'] = ('cases: makerandCIJ_dir / makeringlatticeCIJ every (N,K) with 2<=N<=8(11), 0<=K<=N(N-1); makerandCIJ_und every K<=N(N-1)/2; 5 seeds each; '
                       'makeevenCIJ N in {4,8,(16)}, every cluster size and every feasible K; maketoeplitzCIJ N=3..6(8), K<=N(N-1)/2, s in {1,2,4}; '
                       'makefractalCIJ levels 1..4(5), E in {1,2,3,4} (probabilities checked against 1/E^ee by the model); makeevenCIJ also N = 2 and non-powers of two; makerandCIJdegreesfixed on degree sequences of random simple digraphs N<=6(8), 40 % of them passed as int32 array / python list / strided view; '
+                      'a size axis for every generator: N around 12, 16/17, 32/33, 48, 64/65, 100, 128/129, 216-220, 256/257 with K at and near its extremes, 4-8 hierarchical levels, '
+                      'degree sequences with > 64 / 500 / 1000 edges (model replay where fast, the independent predicates alone beyond - counted under size-axis:*); '
                       'non-trivial = distinct case in which the generator returned a non-empty matrix')
     ck.assumptions += ['K feasible: K <= N(N-1) (N(N-1)/2 undirected), K >= number of cluster cells for makeevenCIJ, N a power of two >= 4 where required',
                        'maketoeplitzCIJ (10000 rejections) and makerandCIJdegreesfixed (repair loop) may give up with BCTParamError on in-domain input: reported as violations of the '
@@ -387,7 +441,10 @@ def main():
                         if isinstance(b.get('detail'), dict) and 'case' in b['detail']]]
     else:
         # history across calls: shuffled batches, one fresh process per batch, plus explicit sequences
-        batches = seqc.make_batches(ck.rs, gen_cases(ck.rs, ck.tier), 40, explicit_sequences(ck.rs, ck.tier))
+        sz = size_cases(ck.rs, ck.tier)
+        sz = [sz[i] for i in ck.rs.permutation(len(sz))]
+        size_batches = [sz[i::max(1, len(sz) // 6)] for i in range(max(1, len(sz) // 6))]     # mixed generators, ~6 per process
+        batches = seqc.make_batches(ck.rs, gen_cases(ck.rs, ck.tier), 40, size_batches + explicit_sequences(ck.rs, ck.tier))
         probes = gen_probes(ck.rs, ck.tier)
     cases, results, hist = seqc.run_batches(run_case, batches)
     ck.count('batches', len(batches)); ck.count('explicit_sequence_cases', sum(1 for c in cases if c.get('seq')))
@@ -435,7 +492,9 @@ def main():
             ck.count('degreesfixed:rep=%s' % (c.get('rep') or 'int64'))
         if rt == 'makerandCIJdegreesfixed' and len(r['draws']) > sum(c['inv']):
             ck.count('degreesfixed:repair-loop-entered')
-        if rt in MODELLED:
+        if c.get('size'):
+            ck.count('size-axis:%s:%s' % (rt, 'model-replay' if c.get('replay', True) else 'predicates-only'))
+        if rt in MODELLED and c.get('replay', True):
             ln = lean_line(c, r)
             if ln is None:
                 ck.count('not-replayed:non-finite-threshold'); continue
